@@ -1,4 +1,6 @@
 SPECIFICATION Spec
 CONSTANT StoresC <- Stores_quick
+CONSTANT SeekTopC <- SeekRepaired
+CONSTANT RangeC <- TRUE
 CHECK_DEADLOCK FALSE
 INVARIANT KS_NewestAlways
